@@ -293,6 +293,8 @@ class ClassParser(BaseParser):
                     f"Attempt to set immutable attribute: [{repr(field.attname)}]"
                 )
 
+            # an assignment may be the first use of this declaration
+            self.resolve_forward_refs()
             context = self.options.make_context(_obj_self.__class__, force_error=True)
             value = field.parse_value(value, context=context)
             if unprovided(value):
@@ -313,6 +315,7 @@ class ClassParser(BaseParser):
                     f"{self.name}: "
                     f"Attempt to set immutable attribute: [{repr(field.attname)}]"
                 )
+            self.resolve_forward_refs()
             context = self.options.make_context(_obj_self.__class__, force_error=True)
             value = field.parse_value(value, context=context)
             if unprovided(value):
